@@ -16,6 +16,7 @@ of `Props/C15.lean` (stated for `handleEvent`) hold of the interpreted body.
 import VaxisModel.Gen.VxfwBodies
 import VaxisModel.Lemmas.VxfwBody
 import VaxisModel.Lemmas.VxfwBodyMouse
+import VaxisModel.Lemmas.VxfwBodyFocus
 import VaxisModel.Props.C15
 import VaxisModel.Props.C15Err
 
@@ -95,6 +96,28 @@ theorem mouse_routing_body (o : Oracle) (fuel : Nat) (s : St) (col row : Int) :
   refine ⟨mouseHandleEvent o fuel s col row, t, ?_, ht, hc⟩
   rw [mouse_handle_event_body_eq_model (e0 o) fuel s col row _ (Nat.le_refl _),
     (C15Err.no_error_agrees_handlers o fuel s).2.2 col row]
+
+/-- The regenerated body of `focusHandler.focusWidget` is the one the execution lemma is about. -/
+theorem focus_widget_body_as_expected : Gen.VxfwBodies.focusWidget = Lemmas.VxfwBodyExpected.focusWidget := by decide +kernel
+
+/-- **`focusHandler.focusWidget`, executed from its regenerated body, IS `eFocusWidgetWith`** (what is
+    returned where): nothing and nil when the widget is focused already; the FocusOut handler's error is
+    returned BEFORE `f.focused = w` (focus, path and trace unchanged but for the call); then `f.focused = w`,
+    `f.findPath()`, the FocusIn call; the FocusOut handler's command is handled, THEN the FocusIn handler's
+    error is returned (its command dropped), else its command is handled and nil returned — the order of
+    the repairs F115b / F115a.  Every oracle, failing-call set, state, widget; `fuel` is the nesting budget of the
+    two `app.handleCommand` calls, so this is `eFocusWidget e (fuel + 1)`. -/
+theorem focus_widget_body_eq_model (e : EOracle) (fuel : Nat) (s : St) (w : Id) :
+    runFocusWidget (parseBody Gen.VxfwBodies.focusWidget) e fuel s w = some (eFocusWidget e (fuel + 1) s w) := by
+  rw [focus_widget_body_as_expected, Lemmas.VxfwBody.parse_fw]
+  exact Lemmas.VxfwBody.fw_exec e fuel s w
+
+/-- Non-vacuity: focus on 0, `focusWidget(1)` with a FocusIn handler that fails: the body returns the error,
+    the focus has moved (3 trace entries: FocusOut call, `focused = 1`, FocusIn call). -/
+example :
+    let o : Oracle := ⟨fun _ _ _ _ => .redraw, fun _ => false⟩
+    (runFocusWidget (parseBody Gen.VxfwBodies.focusWidget) ⟨o, fun w ev _ _ => w = 1 ∧ ev = .focusIn⟩ 2 (St.init 0) 1).map
+      (fun r => (r.1.focused, r.1.trace.length, r.1.redraw, r.2)) = some (1, 4, true, true) := by decide +kernel
 
 /-- Non-vacuity: widgets 0 and 1 capture, 2 consumes in the bubble phase, 3 is focused; the run of the
     regenerated body calls 0c 1c 3t 2b and returns nil; with a failing target call it stops there and
